@@ -6,10 +6,11 @@ from .common import info
 
 def run(ctx):
     RG.costs_C16(ctx, "R16.a", "R16.c")
+    RG.last_occurrence_rules(ctx, "R16.d")
     RS.reset_before_read(ctx, "R16.b", only_owner="matching::damlev::DamerauLevenshtein")
     RS.matrix_rules(ctx, "R16.b")
     return info("R16.a: every edit-cost constant reaching the DP recurrence is 0.5 or 1.0 and the only zero cost is "
                 "assigned under ch1 == ch2; R16.c: per-class costs <= default, doubled-letter cost combined through "
-                "min, substitution through max, fmin/fmax/fmin4 select what their names say; R16.b: history "
+                "min, substitution through max, fmin/fmax/fmin4 select what their names say; R16.d: the last-occurrence map is overwritten with i1+1 once per outer iteration after the inner loop; R16.b: history "
                 "independence = reset-before-read of costs1/costs2/last_i1 plus the matrix rules (growth => resize+size+"
                 "init together, borders rebuilt on every call, prepare dominates all matrix accesses in distance).")
